@@ -13,6 +13,8 @@ mod ops_core;
 mod ops_full;
 #[cfg(feature = "full")]
 mod ops_layout;
+#[cfg(feature = "full")]
+mod ops_proof;
 #[cfg(feature = "parser")]
 mod ops_parser;
 
@@ -49,6 +51,8 @@ fn dispatch(op: &str, a: &[&str]) -> Out {
     if let Some(o) = ops_full::run(op, a) { return o; }
     #[cfg(feature = "full")]
     if let Some(o) = ops_layout::run(op, a) { return o; }
+    #[cfg(feature = "full")]
+    if let Some(o) = ops_proof::run(op, a) { return o; }
     #[cfg(feature = "parser")]
     if let Some(o) = ops_parser::run(op, a) { return o; }
     panic!("HX-BAD-INPUT unknown op {}", op)
